@@ -22,11 +22,12 @@ Rec == ndJsonDeserialize(IOEnv.TRACE)
 VARIABLES l,      \* next line of the trace to consume
           s,      \* the machine state of Cose.tla
           open,   \* TRUE while the current session is not followed: parser gap, or outcome kinds diverged; until reset
+          rel,    \* C06: the structure bytes handed to closures so far in this session, as pairs <<specification's, crate's>>
           fp      \* fixed-point tracking (C07): [on, f7, val, bytes]: value/bytes of the last decode / encode since the wire was last touched
-tvars == <<l, s, open, fp>>
+tvars == <<l, s, open, fp, rel>>
 
 FpNone == [on |-> FALSE, f7 |-> FALSE, val |-> <<>>, bytes |-> <<>>]
-TraceInit == l = 1 /\ s = InitState /\ open = FALSE /\ fp = FpNone
+TraceInit == l = 1 /\ s = InitState /\ open = FALSE /\ fp = FpNone /\ rel = <<>>
 
 (* events of the trace that are not actions of the machine *)
 IsReset(e) == e.ev = "reset"
@@ -49,21 +50,25 @@ Aspects(e) ==
   IF Prop = "" THEN AllAspects
   ELSE IF Prop = "C01" THEN {"nopanic"}
   ELSE IF e.ev = "decode" \/ e.ev = "decode_value" THEN
-    (CASE Prop \in DecodeProps \cup {"C06", "C11", "C20"} -> {"kind", "val"}
+    (CASE Prop \in DecodeProps \cup {"C11", "C20"} -> {"kind", "val"}
+       [] Prop = "C06" -> {"kind"}
        [] Prop = "C02" -> {"orig"}
        [] Prop = "C14" -> (IF e.ev = "decode" /\ e.api = "tagged" THEN {"kind", "val"} ELSE {})
        [] OTHER -> {})
   ELSE IF e.ev = "encode" THEN
-    (CASE Prop \in {"C02", "C06", "C20"} -> {"kind", "bytes"}
+    (CASE Prop \in {"C02", "C20"} -> {"kind", "bytes"}
+       [] Prop = "C06" -> {"kind"}
        [] Prop = "C14" -> (IF e.api = "tagged" THEN {"kind", "bytes"} ELSE {})
        [] Prop \in {"C11", "C18"} -> {"kind", "bytes"}
        [] OTHER -> {})
   ELSE IF e.ev \in {"tbs", "verify", "struct"} THEN
-    (CASE Prop \in {"C02", "C03", "C04", "C05", "C06"} -> {"kind", "bytes", "cb", "ret"}
+    (CASE Prop \in {"C02", "C03", "C04", "C05"} -> {"kind", "bytes", "cb", "ret"}
+       [] Prop = "C06" -> {"kind", "ret", "cbhead"}        \* the bytes themselves belong to C03-C05; C06 is the RELATION (PropRel below)
        [] OTHER -> {})
   ELSE IF e.ev \in {"call", "new", "ctor", "build", "lit"} THEN
     (CASE Prop = "C19" -> {"kind", "val"}
-       [] Prop \in {"C06", "C03", "C04", "C05"} -> {"kind", "cb"}
+       [] Prop \in {"C03", "C04", "C05"} -> {"kind", "cb"}
+       [] Prop = "C06" -> {"kind", "cbhead"}
        [] Prop = "C11" -> {"kind", "val"}
        [] OTHER -> {})
   ELSE IF e.ev = "canonicalize" THEN (IF Prop = "C20" THEN {"kind", "val"} ELSE {})
@@ -96,6 +101,8 @@ MatchObs(e, exp, o, asp) ==
   /\ ("bytes" \in asp /\ o.kind = "ok" /\ exp.kind = "ok") => exp.bytes = o.bytes
   /\ ("ret" \in asp /\ o.kind = "ok" /\ exp.kind = "ok") => exp.ret = o.ret
   /\ ("cb" \in asp /\ o.kind \in {"ok", "err"} /\ exp.kind = o.kind) => exp.cb = o.cb
+  /\ ("cbhead" \in asp /\ o.kind \in {"ok", "err"} /\ exp.kind = o.kind) =>
+        (Len(exp.cb) = Len(o.cb) /\ (exp.cb # <<>> => SubSeq(exp.cb, 1, Len(exp.cb) - 1) = SubSeq(o.cb, 1, Len(o.cb) - 1)))
   /\ ("val" \in asp /\ o.cmpval /\ o.kind \in {"ok", "err"} /\ exp.kind = o.kind) => exp.val = o.val
   /\ ("orig" \in asp /\ o.cmpval /\ o.kind = "ok" /\ exp.kind = "ok" /\ exp.val # <<>> /\ o.val # <<>>) =>
         Origs(e.ty, exp.val[1]) = Origs(e.ty, o.val[1])
@@ -134,6 +141,11 @@ PropUntagged(st, e, o) ==
   LET r == ReadToValue(st.wire[1]) IN
   (e.api = "slice" /\ e.ty \in MsgTypes /\ r.ok /\ r.v.t = "tag") => o.kind = "err"
 
+(* C06: any two closures of one session were handed equal structure bytes by the crate exactly when the specification says so *)
+HasCb(n, o) == n.out.kind = o.kind /\ n.out.cb # <<>> /\ o.cb # <<>>
+PropRel(n, o) == ~HasCb(n, o) \/ \A i \in 1..Len(rel) : (rel[i][1] = Last(n.out.cb)) = (rel[i][2] = Last(o.cb))
+NextRel(n, o) == IF HasCb(n, o) THEN Append(rel, <<Last(n.out.cb), Last(o.cb)>>) ELSE rel
+
 (* fixed point (C07), on the crate's OWN observations: once a decode has succeeded, decoding what the crate's encoder wrote *)
 (* gives the same value, and encoding that gives the same bytes                                                        *)
 NextFp(st, e, o) ==
@@ -151,12 +163,12 @@ Consume ==
   /\ l <= Len(Rec)
   /\ l' = l + 1
   /\ LET e == Rec[l].e o == Rec[l].o IN
-     IF IsReset(e) THEN s' = InitState /\ open' = FALSE /\ fp' = FpNone
+     IF IsReset(e) THEN s' = InitState /\ open' = FALSE /\ fp' = FpNone /\ rel' = <<>>
      ELSE IF e.ev = "cmp" THEN
-       /\ UNCHANGED <<s, open, fp>>
+       /\ UNCHANGED <<s, open, fp, rel>>
        /\ (CmpExpect(e) = [cmp |-> o.cmp, canon |-> o.canon, eq |-> o.eq]
            \/ PrintT(<<"MISMATCH", l, "cmp", ToJson([expect |-> CmpExpect(e), event |-> e])>>))
-     ELSE IF open THEN UNCHANGED <<s, open, fp>>                \* this session is no longer followed (see below); wait for the reset
+     ELSE IF open THEN UNCHANGED <<s, open, fp, rel>>                \* this session is no longer followed (see below); wait for the reset
      ELSE
        LET n == Step(s, e) gap == n.out.err = "GAP"
            (* the crate and the specification disagree on whether the call succeeded: from here on they hold different   *)
@@ -167,6 +179,9 @@ Consume ==
        /\ s' = n
        /\ open' = (gap \/ diverged)
        /\ fp' = IF gap \/ diverged THEN FpNone ELSE NextFp(s, e, o)
+       /\ rel' = IF gap \/ diverged \/ Prop # "C06" THEN rel ELSE NextRel(n, o)
+       /\ (gap \/ Prop # "C06" \/ PropRel(n, o)
+           \/ PrintT(<<"PROPFAIL", l, "created-and-verified-bytes-relation", ToJson([event |-> e, design |-> Obs(n)])>>))
        /\ \/ gap                                               \* unjudged
           \/ MatchObs(e, Obs(n), o, Aspects(e))
           \/ PrintT(<<"MISMATCH", l, e.ev, ToJson([expect |-> Obs(n), event |-> e])>>)
